@@ -115,7 +115,10 @@ def run_safety(case):
         w = 3 if case["index"] % 3 == 1 else 1
         out = pipeline.run_brew(paths, learner=case["learner"], folds=case["folds"], seed=int(rng.integers(1 << 30)),
                                 test_fdr=fdr, train_fdr=train_fdr, max_iter=2, override=case["override"], max_workers=w,
-                                perturb=int(rng.integers(1 << 30)))
+                                perturb=int(rng.integers(1 << 30)),
+                                history=(case["seed"] + case["index"]) if case["index"] % 5 in (1, 3) else None)
+        if out.get("history_prelude_completed"):
+            res.count("runs_after_history_prelude")
         extra_workers = w
         extra = {k: case[k] for k in ("learner", "enc", "best_desc", "fmt", "nfiles", "folds", "override")}
         extra["fdr"] = fdr
